@@ -314,6 +314,11 @@ func (m *Message) GetString(ctx context.Context) (string, error) {
 		if err != nil {
 			return "", err
 		}
+		if length < 0 {
+			// The length prefix is peer-controlled; a negative value would
+			// otherwise reach make() below and panic.
+			return "", fmt.Errorf("invalid string length %d", length)
+		}
 
 		if err := m.ensureData(ctx, int(length)); err != nil {
 			return "", err
@@ -387,6 +392,11 @@ func (m *Message) GetStringWithMaxSize(ctx context.Context, maxSize int) (string
 		length, err := m.GetInt32(ctx)
 		if err != nil {
 			return "", err
+		}
+		if length < 0 {
+			// The length prefix is peer-controlled; a negative value would
+			// otherwise reach make() below and panic.
+			return "", fmt.Errorf("invalid string length %d", length)
 		}
 
 		// Check if length exceeds maxSize - if so, only read maxSize bytes
